@@ -532,6 +532,7 @@ def gen_history(rng, maxlen=5, with_run=False):
 def correspondence(ctx):
     corr_unroll(ctx)
     corr_history(ctx)
+    corr_options(ctx)
     corr_reshape(ctx)
     corr_delays(ctx)
 
@@ -637,6 +638,85 @@ def corr_history(ctx):
                     ctx.disagreement("corr:history:%s" % hist[k][0],
                                      "state after call %d differs (impl, model): %s" % (k, str(diff)[:400]), data)
     ctx.traces += len(cases)
+
+
+def corr_options(ctx):
+    """BaseEngine.get_tdm_options after a call history, for every combination of run options."""
+    from strawberryfields.engine import BaseEngine
+    rng = ctx.rng
+    n_cases = ctx.budget(150, 1500)
+    cases = []
+    for _ in range(n_cases):
+        spec = gen_spec(rng, allow_expr=False, max_T=4, max_N=3, single_band=True, names=HIST_NAMES, shift_kinds=("default",))
+        hist = gen_history(rng, 4) if rng.random() < 0.85 else []
+        kw = {"space_unroll": rng.random() < 0.5, "shots": rng.choice([None, 1, 1, 2, 3]), "crop": rng.random() < 0.4}
+        cases.append((spec, hist, kw))
+    impl = []
+    for spec, hist, kw in cases:
+        prog = build_tdm(spec)
+        rolled_ids = [id(c) for c in prog.circuit]
+        for c in hist:
+            try:
+                getattr(prog, c[0])(*c[1:])
+            except ValueError:
+                pass
+        try:
+            cropv = int(prog.get_crop_value())
+        except NotImplementedError:      # nested loops: crop has no value for this program
+            cropv = 0
+            kw["crop"] = False
+        import warnings as _w
+        with _w.catch_warnings():
+            _w.simplefilter("ignore")
+            opts = BaseEngine.get_tdm_options(prog, **kw)
+        m = opts["modes"]
+        impl.append((obs_prog_state(prog, rolled_ids), None if m is None else (m.start, m.stop), opts["shots"] is not None, bool(opts["received_rolled"]), cropv))
+        pre = [c[0] for c in hist]
+        ctx.case({"kind": "options", "spec": spec, "hist": hist, "kw": kw}, nontrivial=len(spec["arrays"][0]) >= 2 and any(x in pre for x in ("unroll", "space_unroll")),
+                 bucket="options:%s:%s" % ("space" if kw["space_unroll"] else "shift", "none" if kw["shots"] is None else "shots"))
+    SH = 150
+    for si in range(0, len(cases), SH):
+        lines = [HEADER]
+        constss = []
+        for (spec, hist, kw), im in zip(cases[si:si + SH], impl[si:si + SH]):
+            consts = Consts()
+            constss.append(consts)
+            T = len(spec["arrays"][0])
+            lines.append("Eval vm_compute in obs_options %s %s %d %s %s %s %s %s %d." % (
+                coq.coq_list(spec["N"]), enc_shift(spec["shift"]), T, enc_cmds(spec, consts), coq.coq_list([enc_call(c) for c in hist]),
+                coq.coq_bool(kw["space_unroll"]), "None" if kw["shots"] is None else "(Some %d)" % kw["shots"], coq.coq_bool(kw["crop"]), im[4]))
+        ok, vals, raw = ctx.coq_eval("cases_options_%d" % (si // SH), "\n".join(lines))
+        if not ok or len(vals) != len(constss):
+            ctx.obligation("correspondence:options:shard%d" % (si // SH), False, raw)
+            return
+        for (spec, hist, kw), consts, v, im in zip(cases[si:si + SH], constss, vals, impl[si:si + SH]):
+            stv, (has_m, (lo, hi), truthy, rr) = tuple(v[:6]), v[6]     # Coq prints left-nested tuples flattened
+            mm = (dec_state(stv, spec, consts), (int(lo), int(hi)) if has_m else None, bool(truthy), bool(rr))
+            ii = (im[0], im[1], im[2], im[3])
+            if not _state_close(mm[0], ii[0]) or mm[1:] != ii[1:]:
+                data = {"check": "runmatrix", "spec": spec, "prior": hist, "kw": kw, "inj": [0.3, -0.5, 0.8, 0.1, -0.9, 0.4, 0.7, -0.2]}
+                c2 = _Collector()
+                if run_data(c2, data):
+                    for sig, what, d in c2.items:
+                        ctx.counterexample(sig, what, d)
+                else:
+                    diff = {k: (ii[0][k], mm[0][k]) for k in ii[0] if k != "circ" and ii[0][k] != mm[0][k]}
+                    ctx.disagreement("corr:options:%s" % ("space" if kw["space_unroll"] else "shift"),
+                                     "get_tdm_options differs (impl, model): modes %s vs %s, shots-flag %s vs %s, received_rolled %s vs %s, state %s" % (
+                                         ii[1], mm[1], ii[2], mm[2], ii[3], mm[3], str(diff)[:300]), data)
+    ctx.traces += len(cases)
+
+
+def _state_close(a, b):
+    for k in a:
+        if k == "circ":
+            if (a[k] == "rolled") != (b[k] == "rolled"):
+                return False
+            if a[k] != "rolled" and not circuits_close(a[k], b[k]):
+                return False
+        elif a[k] != b[k]:
+            return False
+    return True
 
 
 def corr_reshape(ctx):
@@ -802,7 +882,11 @@ def crop_check(ctx, spec, inj, space):
             nm = sum(sp["N"]) + max(T - 1, 0)
             loop = [[n_, ps, m, False, None] for n_, ps, m, _, _ in space_image(sp, 1)]
             rl, _ = run_plain(nm, loop, [0.0])
-            for res, modes, tag in ((r1, list(range(c, T)), "crop"), (r0, list(range(0, T)), "nocrop")):
+            # the documented way to get the joint state of all pulses: the full program (measurements included), shots=None
+            r3 = sf.Engine("gaussian").run(build_tdm(spec), space_unroll=True, shots=None, crop=True)
+            r2 = sf.Engine("gaussian").run(build_tdm(spec), space_unroll=True, shots=None)
+            for res, modes, tag in ((r1, list(range(c, T)), "crop"), (r0, list(range(0, T)), "nocrop"),
+                                    (r3, list(range(c, T)), "crop:shots=None"), (r2, list(range(0, T)), "nocrop:shots=None")):
                 st = res.state
                 if st is None:
                     if modes:
@@ -1308,6 +1392,8 @@ def search(ctx):
             ctx.counterexample(sig, what, data)
     # 6. engine-side crop handling
     search_crop(ctx)
+    # 7. run options x prior program states
+    search_run_matrix(ctx)
 
 
 def search_crop(ctx):
@@ -1320,6 +1406,136 @@ def search_crop(ctx):
         ctx.case({"kind": "crop", "spec": spec, "space": space}, nontrivial=nloops >= 1 and len(spec["arrays"][0]) >= 2, bucket="search:crop")
         for sig, what in crop_check(ctx, spec, inj, space):
             ctx.counterexample(sig, what, data)
+
+
+PRIORS = [
+    [], [["lock"]],
+    [["unroll", 1]], [["unroll", 2]], [["lock"], ["unroll", 1]], [["unroll", 1], ["lock"]],
+    [["space_unroll", 1]], [["lock"], ["space_unroll", 1]],
+    [["unroll", 1], ["roll"]], [["unroll", 2], ["roll"]], [["space_unroll", 1], ["roll"]],
+    [["unroll", 1], ["unroll", 2]], [["unroll", 1], ["roll"], ["space_unroll", 1]], [["space_unroll", 1], ["roll"], ["unroll", 2]],
+]
+RUN_OPTS = [{"space_unroll": S, "shots": k, "crop": c} for S in (False, True) for k in (None, 1, 2) for c in (False, True)]
+
+
+def _apply_calls(prog, calls):
+    for c in calls:
+        getattr(prog, c[0])(*c[1:])
+
+
+def _engine_obs(prog, kw, inj):
+    import warnings as _w
+    eng = sf.Engine("gaussian")
+    try:
+        with _w.catch_warnings():
+            _w.simplefilter("ignore")
+            with Inject(inj) as I:
+                res = eng.run(prog, **kw)
+    except Exception as e:
+        return ("err", type(e).__name__, repr(e)[:200])
+    st = res.state
+    sd = res.samples_dict or {}
+    return ("ok", np.array(res.samples, float), I.records, None if st is None else st.num_modes,
+            None if st is None else np.array(st.means()), None if st is None else np.array(st.cov()),
+            {int(k): np.array(v, float) for k, v in sd.items()})
+
+
+def _engine_diff(got, want):
+    """None if equal, else a short tag naming what differs."""
+    if got[0] != want[0]:
+        return "raises:" + got[1] if got[0] == "err" else "no-error"
+    if got[0] == "err":
+        return None if got[1] == want[1] else "raises:" + got[1]
+    if got[3] != want[3]:
+        return "state-modes"
+    if got[3] is not None and not (np.allclose(got[4], want[4], atol=1e-7) and np.allclose(got[5], want[5], atol=1e-7)):
+        return "state"
+    if got[1].shape != want[1].shape:
+        return "samples-shape"
+    if not np.allclose(got[1], want[1], atol=1e-9):
+        return "samples"
+    if sorted(got[6]) != sorted(want[6]) or any(got[6][k].shape != want[6][k].shape or not np.allclose(got[6][k], want[6][k], atol=1e-9) for k in got[6]):
+        return "samples_dict"
+    if not rec_close(got[2], want[2]):
+        return "laws"
+    return None
+
+
+def run_matrix_case(spec, prior, kw, inj):
+    """eng.run(prog, **kw) on a program brought into a prior state by `prior` must equal the same run on a freshly
+    built program brought to the equivalent state by the most direct route:
+      * the executed form is space-unrolled iff space_unroll=True or the user space-unrolled it (and did not roll back);
+      * the unrolling count is that of the user's cached form if that form is executed, else `shots or 1`;
+      * the reference is a fresh rolled program run with the same options when its own unrolling count agrees,
+        otherwise a fresh program (space-)unrolled explicitly with that count.
+    (Fresh rolled runs are themselves compared with the explicit fresh-mode loop by engine_check / crop_check.)"""
+    prog = build_tdm(spec)
+    _apply_calls(prog, prior)
+    pre_space = prog.space_unrolled_circuit is not None
+    pre_unr = prog.unrolled_circuit is not None
+    pre = "space-unrolled" if pre_space else ("unrolled" if pre_unr else "rolled")
+    S, k = bool(kw.get("space_unroll")), kw.get("shots")
+    if pre_space:
+        space_eff, count = True, prog._unrolled_shots
+    elif pre_unr and not S:
+        space_eff, count = False, prog._unrolled_shots
+    else:
+        space_eff, count = S, (k or 1)
+    ref = build_tdm(spec)
+    rkw = dict(kw)
+    rkw["space_unroll"] = space_eff
+    if (k or 1) != count:
+        (ref.space_unroll if space_eff else ref.unroll)(count)
+    got = _engine_obs(prog, kw, inj)
+    want = _engine_obs(ref, rkw, inj)
+    d = _engine_diff(got, want)
+    if d is None:
+        return []
+    sig = "engine:run-options:%s:%s:space_unroll=%s:shots=%s%s" % (d, pre, S, "None" if k is None else ("1" if k == 1 else "k"), ":crop" if kw.get("crop") else "")
+    if pre == "unrolled" and S and got[0] == "err" and (
+            (got[1] == "AttributeError" and "Backend' object has no attribute" in got[2]) or
+            (got[1] == "NotImplementedError" and "has not been implemented" in got[2])):
+        # the engine's copy rolls back to the user's UNCOMPILED rolled circuit before space-unrolling it
+        sig = "engine:run-options:unrolled+space_unroll-kwarg:uncompiled-gate"
+    elif space_eff and count > 1 and d in ("state", "samples", "laws", "samples_dict", "samples-shape"):
+        # both sides space-unroll for 2+ shots: the wrapped second shot (known finding) depends on how the rolled circuit was split into commands
+        sig = "space_unroll:shots>1"
+    return [(sig, "eng.run(prog, %s) on a %s program (prior calls %s) differs from the same run on a fresh program in '%s': got %s, expected %s" % (
+        kw, pre, prior, d, _engine_brief(got), _engine_brief(want)))]
+
+
+def _engine_brief(o):
+    if o[0] == "err":
+        return o[2]
+    return "samples%s state-modes=%s draws=%d" % (o[1].shape, o[3], len(o[2]))
+
+
+def search_run_matrix(ctx):
+    """Every run option combination against every prior program state (engine-level histories)."""
+    rng = ctx.rng
+    for i in range(ctx.budget(3, 24)):
+        # time bins <= concurrent modes for every other program: space-unrolled runs with measurements then survive reshape_samples
+        loopy = i % 3 == 2
+        if loopy:
+            # delay-loop layout (Sgate / BSgate / homodyne only): the only programs for which crop has a meaning
+            spec, _ = gen_loop_spec(rng, meas="MeasureHomodyne", max_T=5)
+        else:
+            spec = gen_spec(rng, physical=True, wellformed=True, allow_flags=False, allow_expr=False, shift_kinds=("default",),
+                            single_band=True, max_N=3, max_T=4, names=PRIMITIVE * 3 + ["S2gate", "MZgate"])
+        if i % 3 == 0:
+            n, T = spec["N"][0], len(spec["arrays"][0])
+            if T > n:
+                spec["arrays"] = [a[:n] for a in spec["arrays"]]
+        inj = inj_values(rng, 12)
+        for prior in PRIORS:
+            for kw in RUN_OPTS:
+                if kw["crop"] and not loopy:
+                    continue
+                data = {"check": "runmatrix", "spec": spec, "prior": prior, "kw": kw, "inj": inj}
+                ctx.case({"kind": "runmatrix", "spec": spec, "prior": prior, "kw": kw},
+                         nontrivial=len(spec["arrays"][0]) >= 2 and any(c[0] in ("unroll", "space_unroll") for c in prior), bucket="search:runmatrix")
+                for sig, what in run_matrix_case(spec, prior, kw, inj):
+                    ctx.counterexample(sig, what, data)
 
 
 class _Collector:
@@ -1350,6 +1566,8 @@ def run_data(ctx, d):
         f = space_state_check(ctx, d["spec"])
     elif chk == "crop":
         f = crop_check(ctx, d["spec"], d["inj"], d["space"])
+    elif chk == "runmatrix":
+        f = run_matrix_case(d["spec"], d["prior"], d["kw"], d["inj"])
     else:
         return False
     for sig, what in f:
